@@ -3126,6 +3126,14 @@ impl Block {
         // update that transaction with this information prior to hashing it in order
         // for the hash-comparison to work.
         //
+        if cv.ft_num > 1 {
+            error!("ERROR 48204: block has more than one fee transaction");
+            return false;
+        }
+        if cv.ft_num > 0 && cv.gt_index.is_none() {
+            error!("ERROR 48203: block has fee transaction but no golden ticket");
+            return false;
+        }
         if cv.ft_num > 0 {
             if let (Some(ft_index), Some(fee_transaction_expected)) =
                 (cv.ft_index, cv.fee_transaction)
